@@ -2,6 +2,7 @@ package gltf
 
 import (
 	"image/color"
+	"reflect"
 
 	"github.com/EliCDavis/polyform/math/quaternion"
 	"github.com/EliCDavis/polyform/math/trs"
@@ -111,6 +112,9 @@ func (pm *PolyformMaterial) equal(other *PolyformMaterial) bool {
 	if pm.Name != other.Name {
 		return false
 	}
+	if len(pm.Extras) != len(other.Extras) || (len(pm.Extras) > 0 && !reflect.DeepEqual(pm.Extras, other.Extras)) {
+		return false
+	}
 	if !pm.PbrMetallicRoughness.equal(other.PbrMetallicRoughness) {
 		return false
 	}
@@ -125,6 +129,12 @@ func (pm *PolyformMaterial) equal(other *PolyformMaterial) bool {
 	}
 
 	if !float64PtrsEqual(pm.AlphaCutoff, other.AlphaCutoff) {
+		return false
+	}
+	if !pm.NormalTexture.equal(other.NormalTexture) {
+		return false
+	}
+	if !pm.OcclusionTexture.equal(other.OcclusionTexture) {
 		return false
 	}
 	if len(pm.Extensions) != len(other.Extensions) {
@@ -149,6 +159,15 @@ func (pt *PolyformTexture) equal(other *PolyformTexture) bool {
 
 	if pt.URI != other.URI {
 		return false
+	}
+
+	if len(pt.Extensions) != len(other.Extensions) {
+		return false
+	}
+	for i, ext := range pt.Extensions {
+		if !reflect.DeepEqual(ext, other.Extensions[i]) {
+			return false
+		}
 	}
 
 	if pt.Sampler == other.Sampler {
@@ -180,6 +199,21 @@ func (pt *PolyformNormal) equal(other *PolyformNormal) bool {
 		return false
 	}
 	return float64PtrsEqual(pt.Scale, other.Scale)
+}
+
+func (pt *PolyformOcclusion) equal(other *PolyformOcclusion) bool {
+	if pt == other {
+		return true
+	}
+
+	if pt == nil || other == nil {
+		return false
+	}
+
+	if !pt.PolyformTexture.equal(other.PolyformTexture) {
+		return false
+	}
+	return float64PtrsEqual(pt.Strength, other.Strength)
 }
 
 func (pmr *PolyformPbrMetallicRoughness) equal(other *PolyformPbrMetallicRoughness) bool {
